@@ -52,6 +52,7 @@ def check(ck):
     r10_8(ck)
     r10_9(ck)
     r10_10(ck)
+    r10_11(ck)
 
 
 def _ret_tuples(fi):
@@ -804,3 +805,35 @@ def r10_10(ck):
                            % (name, key, ', self.'.join(sorted(touched)),
                               attr), m.node)
     ck.note('R10.10: %d (memo attribute, mutator) pairs on this tree' % n)
+
+
+def r10_11(ck, rule='R10.11'):
+    ck.rule(rule, 'a moved process keeps its schedule and its update in '
+            'flight: when a batch reports a path as deleted and the same '
+            'process object under a new path, the engine carries the front '
+            'entry over instead of dropping it')
+    ea = ck.fn('Engine.apply_update', 'core.engine')
+    dp = ck.fn('Engine._delete_path', 'core.engine')
+    rd = ck.fn('Engine._remove_deleted_processes', 'core.engine')
+    carried = False
+    for f in (ea, dp, rd):
+        for s2 in A.walk_no_nested(f.node):
+            if isinstance(s2, ast.Assign) and isinstance(
+                    s2.targets[0], ast.Subscript) and A.is_self_attr(
+                    s2.targets[0].value, 'front'):
+                v = A.unparse(s2.value)
+                if 'self.front.pop(' in v or 'self.front[' in v:
+                    carried = True
+    loops = [l for l in A.walk_no_nested(ea.node) if isinstance(l, ast.For)
+             and isinstance(l.iter, ast.Name) and kind_of(l.iter.id) ==
+             'deletion']
+    ck.require(carried, rule, ea,
+               loops[0] if loops else 'handling of reported deletions',
+               'front entries of moved processes are transferred to their '
+               'new path',
+               'the engine treats a move as delete + add: the front entry '
+               'of a moved process (its due time and its update in flight) '
+               'is dropped by _remove_deleted_processes; the update is '
+               'never applied and the process, still holding an unfetched '
+               'command, cannot be invoked again',
+               loops[0] if loops else None)
